@@ -56,7 +56,7 @@ impl Message {
                 let pong = Frame::new(Opcode::Pong, frame.payload);
                 stream
                     .stream
-                    .write_all(pong.as_ref())
+                    .write_all(&Vec::<u8>::from(pong))
                     .map_err(|_| WebsocketError::WriteError)?;
                 continue;
             }
@@ -72,7 +72,7 @@ impl Message {
                 let close = Frame::new(Opcode::Close, frame.payload);
                 stream
                     .stream
-                    .write_all(close.as_ref())
+                    .write_all(&Vec::<u8>::from(close))
                     .map_err(|_| WebsocketError::WriteError)?;
                 return Err(WebsocketError::ConnectionClosed);
             }
@@ -115,7 +115,7 @@ impl Message {
                     // If this is a ping, respond with a pong
                     if frame.opcode == Opcode::Ping {
                         let pong = Frame::new(Opcode::Pong, frame.payload);
-                        if stream.stream.write_all(pong.as_ref()).is_err() {
+                        if stream.stream.write_all(&Vec::<u8>::from(pong)).is_err() {
                             return Restion::Err(WebsocketError::WriteError);
                         }
                         continue;
@@ -130,7 +130,7 @@ impl Message {
                     // If this closes the connection, return the error
                     if frame.opcode == Opcode::Close {
                         let close = Frame::new(Opcode::Close, frame.payload);
-                        if stream.stream.write_all(close.as_ref()).is_err() {
+                        if stream.stream.write_all(&Vec::<u8>::from(close)).is_err() {
                             return Restion::Err(WebsocketError::WriteError);
                         }
                         return Restion::Err(WebsocketError::ConnectionClosed);
